@@ -300,7 +300,7 @@ func (c c18) Execute(p *core.Plan) *core.Result {
 // rustKeys: the Rust interop file carries, for its type-2 issuers, the private key (PEM) and
 // the public key as encoded by the other implementation.
 func (c c18) rustKeys(res *core.Result, checkRSA func(string, *rsa.PublicKey)) {
-	data, err := os.ReadFile("/repo/tokens/batched/batched-issuance-test-vectors-rust.json")
+	data, err := os.ReadFile(core.RepoDir() + "/tokens/batched/batched-issuance-test-vectors-rust.json")
 	if err != nil {
 		res.Infra = "cannot read the Rust interop vectors: " + err.Error()
 		return
